@@ -11665,3 +11665,159 @@ func ruleBlockMappingWalksTable(r *Run) {
 	r.check(pth == nil, "modifyBlockMapping:success-behind-the-table-scan", "every success return lies behind the loop over the label table",
 		"the mapping of a block's labels can be skipped: a block filled by one supervoxel that was merged into another body is returned with the supervoxel's id on mapped reads, while label/<point>, sizes and sparse volumes give the body", w.fpos(f), w.renderPath(pth)...)
 }
+
+// ---------------------------------------------------------------------------------------------
+// R14.20 — every entry of the vote table is compared with the winner so far
+
+func init() {
+	register(ruleDef{ID: "R14.20", Prop: "C14", Tier: "quick", Floor: 2,
+		Title: "every entry of the vote table is compared with the winner so far: in the labels package, in each loop over a label→votes map that picks a winner, every way round the loop passes the comparison of the entry's votes with the winner's votes (an entry skipped because 'half the cell is taken' cannot lose a 4-4 tie to a smaller label)",
+		Fn:    ruleEveryVoteCompared})
+	register(ruleDef{ID: "R10.15", Prop: "C10", Tier: "quick", Floor: 2, Title: "(= R14.20) every entry of the vote table is compared with the winner so far", Fn: ruleEveryVoteCompared})
+}
+
+func ruleEveryVoteCompared(r *Run) {
+	w := r.W
+	n := 0
+	for _, f := range w.RepoFuncs {
+		if len(f.Blocks) == 0 || relPkg(pkgPathOf(f)) != "datatype/common/labels" || isTestFunc(w, f) {
+			continue
+		}
+		for _, b := range f.Blocks {
+			for _, in := range b.Instrs {
+				nx, ok := in.(*ssa.Next)
+				if !ok {
+					continue
+				}
+				rg, ok := nx.Iter.(*ssa.Range)
+				if !ok {
+					continue
+				}
+				mt, ok := rg.X.Type().Underlying().(*types.Map)
+				if !ok || mt.Key().String() != "uint64" || mt.Elem().String() != "int" {
+					continue
+				}
+				var votes ssa.Value
+				for _, ref := range *nx.Referrers() {
+					if ex, ok := ref.(*ssa.Extract); ok && ex.Index == 2 {
+						votes = ex
+					}
+				}
+				if votes == nil {
+					continue
+				}
+				// only loops that compare votes at all (pick a winner)
+				isCmp := func(x ssa.Instruction) bool {
+					bo, ok := x.(*ssa.BinOp)
+					if !ok {
+						return false
+					}
+					switch bo.Op {
+					case token.LSS, token.GTR, token.LEQ, token.GEQ:
+						return stripConv(bo.X) == votes || stripConv(bo.Y) == votes
+					}
+					return false
+				}
+				picks := false
+				_, set, _ := innermostLoop(f, b)
+				for bb := range set {
+					for _, x := range bb.Instrs {
+						if isCmp(x) {
+							picks = true
+						}
+					}
+				}
+				if !picks {
+					continue
+				}
+				n++
+				// from the entry's extraction to the Next again
+				var pth []ssa.Instruction
+				if vi, ok := votes.(ssa.Instruction); ok {
+					pth = findPath(f, vi, isCmp, func(x ssa.Instruction) bool { return x == ssa.Instruction(nx) }, nil)
+				}
+				r.check(pth == nil, fmt.Sprintf("%s:vote-loop#%d:every-entry-compared", fname(f), n), "every way round the loop compares the entry's votes with the winner's",
+					"a pass of the loop over the vote table can go round without comparing the entry with the winner so far: a label that ties the winner at four votes is skipped, and which of the two labels the lower-resolution voxel gets depends on the map's iteration order instead of the smaller label winning", w.pos(nx.Pos()), w.renderPath(pth)...)
+			}
+		}
+	}
+	r.check(n >= 2, "labels:vote-loops", fmt.Sprintf("%d", n), "too few found: rule needs review", "-")
+}
+
+// ---------------------------------------------------------------------------------------------
+// R8.33 — the rollback of a supervoxel split covers every saved block
+
+func init() {
+	register(ruleDef{ID: "R8.33", Prop: "C08", Tier: "quick", Floor: 2,
+		Title: "the rollback of a refused supervoxel split covers every saved block: in labelmap.Data.SplitSupervoxel the count handed to restoreOldBlocks is the counter that indexed the saves into the list of original blocks (a count of errors, or any other number, leaves rewritten blocks with split/remain ids that no index or mapping knows)",
+		Fn:    ruleRollbackCoversSavedBlocks})
+}
+
+func ruleRollbackCoversSavedBlocks(r *Run) {
+	w := r.W
+	f := w.method("datatype/labelmap", "Data", "SplitSupervoxel")
+	if f == nil || len(f.Blocks) == 0 {
+		r.undecided("labelmap.Data.SplitSupervoxel", "anchor not found")
+		return
+	}
+	web := func(v ssa.Value) map[ssa.Value]bool {
+		out := map[ssa.Value]bool{}
+		var walk func(x ssa.Value)
+		walk = func(x ssa.Value) {
+			x = stripConv(x)
+			if out[x] {
+				return
+			}
+			out[x] = true
+			switch y := x.(type) {
+			case *ssa.Phi:
+				for _, e := range y.Edges {
+					walk(e)
+				}
+			case *ssa.BinOp:
+				if y.Op == token.ADD {
+					walk(y.X)
+				}
+			}
+		}
+		walk(v)
+		return out
+	}
+	n := 0
+	for _, c := range calls(f) {
+		if methodNameOf(c) != "restoreOldBlocks" {
+			continue
+		}
+		args := c.Common().Args
+		if len(args) < 4 {
+			continue
+		}
+		cnt, blks := args[len(args)-2], args[len(args)-1]
+		n++
+		cw := web(cnt)
+		ok := false
+		for _, b := range f.Blocks {
+			for _, in := range b.Instrs {
+				st, isSt := in.(*ssa.Store)
+				if !isSt {
+					continue
+				}
+				ia, isIA := st.Addr.(*ssa.IndexAddr)
+				if !isIA || !(ia.X == blks || sameRoots(ia.X, blks, f)) {
+					continue
+				}
+				for v := range web(ia.Index) {
+					if _, isK := v.(*ssa.Const); isK {
+						continue
+					}
+					if cw[v] {
+						ok = true
+					}
+				}
+			}
+		}
+		r.check(ok, fmt.Sprintf("SplitSupervoxel:restoreOldBlocks#%d:count-is-the-save-counter", n), "the count is the counter that indexed the saved blocks",
+			"the number of blocks handed to the rollback is not the counter under which the original blocks were saved: after a refused split some rewritten blocks are not restored and keep supervoxel ids that belong to no index or mapping", w.pos(c.Pos()))
+	}
+	r.check(n >= 2, "SplitSupervoxel:rollbacks", fmt.Sprintf("%d", n), "too few found: rule needs review", w.fpos(f))
+}
